@@ -1,4 +1,5 @@
 import Gimli.Model.WUnit
+import Gimli.Spec.WUnit
 import Gimli.Lemmas.Leb
 import Gimli.Lemmas.Ints
 /-! Helper lemmas for C11 (unit writer). -/
@@ -1625,6 +1626,462 @@ theorem sibling_value (cx : Ctx) (pos id tag : Nat) (attrs : List (Nat × AttrVa
   congr 3
   simp only [List.length_append, toBytes_length]
   omega
+
+/-! ## patched references survive everything that is written later -/
+
+theorem Placed.within : ∀ {l : List (Nat × Nat)} {lo hi : Nat}, Placed lo hi l →
+    ∀ h ∈ l, lo ≤ h.1 ∧ h.1 + h.2 ≤ hi
+  | [], _, _, _, h, hm => by simp at hm
+  | (p, size) :: rest, lo, hi, hp, h, hm => by
+    simp only [List.mem_cons] at hm
+    rcases hm with hm | hm
+    · subst hm
+      have := Placed.le hp.2
+      exact ⟨hp.1, this⟩
+    · have := Placed.within hp.2 h hm
+      have h1 := hp.1
+      exact ⟨by omega, this.2⟩
+
+/-- `write_debug_info_fixups` changes nothing outside the placeholders it patches -/
+theorem applyFixups_frame (e : Endian) (units : List Offs) : ∀ (fx : List IFix) (info info' : Bytes),
+    applyFixups e units info fx = .ok info' →
+    ∀ i, (∀ f ∈ fx, i < f.pos ∨ f.pos + f.size ≤ i) → info'[i]? = info[i]?
+  | [], info, info', h => by
+    simp only [applyFixups, Out.ok.injEq] at h
+    subst h; simp
+  | f :: rest, info, info', h => by
+    rw [applyFixups] at h
+    cases hu : units[f.unit]? with
+    | none => simp [hu] at h
+    | some o =>
+      simp only [hu] at h
+      obtain ⟨r, _, h⟩ := bind_ok_inv h
+      cases r with
+      | none => simp at h
+      | some off =>
+        simp only at h
+        obtain ⟨b, hb, h⟩ := bind_ok_inv h
+        obtain ⟨info1, hw, h⟩ := bind_ok_inv h
+        intro i hi
+        rw [applyFixups_frame e units rest info1 info' h i (fun g hg => hi g (List.mem_cons_of_mem _ hg))]
+        rw [writeAt_getElem? _ _ _ _ hw, writeUdata_length _ _ _ _ hb]
+        have := hi f (List.mem_cons_self ..)
+        have hn : ¬ (f.pos ≤ i ∧ i < f.pos + f.size) := by omega
+        simp [hn]
+
+/-- no `UnitRef` placeholder overlaps a fix-up placeholder -/
+def CrossDisj (word : Nat) (em : Emit) : Prop :=
+  ∀ r ∈ em.urefs, ∀ f ∈ em.ifix, r.1 + word ≤ f.pos ∨ f.pos + f.size ≤ r.1
+
+theorem crossDisj_append (word : Nat) (a b : Emit) (lo mid hi : Nat)
+    (ha : CrossDisj word a) (hb : CrossDisj word b)
+    (au : Placed lo mid (holesU word a)) (ai : Placed lo mid (holesI a.ifix))
+    (bu : Placed mid hi (holesU word b)) (bi : Placed mid hi (holesI b.ifix)) :
+    CrossDisj word (a ++ b) := by
+  intro r hr f hf
+  simp only [Emit.append_urefs, Emit.append_ifix, List.mem_append] at hr hf
+  have wu : ∀ (x : Emit) (l h : Nat), Placed l h (holesU word x) → ∀ r ∈ x.urefs, l ≤ r.1 ∧ r.1 + word ≤ h := by
+    intro x l h hp r hr
+    exact Placed.within hp (r.1, word) (List.mem_map.mpr ⟨r, hr, rfl⟩)
+  have wi : ∀ (x : List IFix) (l h : Nat), Placed l h (holesI x) → ∀ f ∈ x, l ≤ f.pos ∧ f.pos + f.size ≤ h := by
+    intro x l h hp f hf
+    exact Placed.within hp (f.pos, f.size) (List.mem_map.mpr ⟨f, hf, rfl⟩)
+  rcases hr with hr | hr <;> rcases hf with hf | hf
+  · exact ha r hr f hf
+  · have := wu a lo mid au r hr; have := wi b.ifix mid hi bi f hf; omega
+  · have := wu b mid hi bu r hr; have := wi a.ifix lo mid ai f hf; omega
+  · exact hb r hr f hf
+
+theorem attrEmit_crossDisj (cx : Ctx) (pos : Nat) (v : AttrVal) (em : Emit) (h : attrEmit cx pos v = .ok em) :
+    em.urefs = [] ∨ em.ifix = [] := by
+  cases v <;> simp only [attrEmit] at h
+  case addressSym | debugInfoRefSym => simp at h
+  case block | data1 | data2 | data4 | data8 | data16 | sdata | implicitConst | udata | flag
+      | flagPresent | debugTypesRef | string | constClass | fileIndex =>
+    simp only [Out.ok.injEq] at h; subst h; left; rfl
+  case lineProgramRef =>
+    cases hl : cx.lineProgram with
+    | none => simp [hl] at h
+    | some off =>
+      simp only [hl] at h
+      obtain ⟨b, _, h⟩ := bind_ok_inv h
+      simp only [Out.pure_eq, Out.ok.injEq] at h; subst h; left; rfl
+  case exprloc items =>
+    obtain ⟨sz, _, h⟩ := bind_ok_inv h
+    obtain ⟨⟨body, fx⟩, hb, h⟩ := bind_ok_inv h
+    simp only [Out.pure_eq, Out.ok.injEq] at h; subst h; left; rfl
+  case stringRef idx =>
+    obtain ⟨off, _, h⟩ := bind_ok_inv h
+    obtain ⟨b, _, h⟩ := bind_ok_inv h
+    simp only [Out.pure_eq, Out.ok.injEq] at h; subst h; left; rfl
+  case lineStringRef idx =>
+    obtain ⟨off, _, h⟩ := bind_ok_inv h
+    obtain ⟨b, _, h⟩ := bind_ok_inv h
+    simp only [Out.pure_eq, Out.ok.injEq] at h; subst h; left; rfl
+  case unitRef id =>
+    obtain ⟨b, hb, h⟩ := bind_ok_inv h
+    simp only [Out.pure_eq, Out.ok.injEq] at h; subst h; right; rfl
+  all_goals
+    (obtain ⟨b, _, h⟩ := bind_ok_inv h
+     simp only [Out.pure_eq, Out.ok.injEq] at h; subst h; left; rfl)
+
+theorem attrsEmit_crossDisj (cx : Ctx) : ∀ (attrs : List (Nat × AttrVal)) (pos : Nat) (em : Emit),
+    attrsEmit cx pos attrs = .ok em → CrossDisj cx.enc.word em
+  | [], pos, em, h => by
+    simp only [attrsEmit, Out.ok.injEq] at h; subst h
+    intro r hr; simp at hr
+  | (n, v) :: rest, pos, em, h => by
+    rw [attrsEmit] at h
+    obtain ⟨a, ha, h⟩ := bind_ok_inv h
+    obtain ⟨r, hr, h⟩ := bind_ok_inv h
+    simp only [Out.pure_eq, Out.ok.injEq] at h; subst h
+    obtain ⟨a1, a2⟩ := attrEmit_placed cx pos v a ha
+    obtain ⟨r1, r2⟩ := attrsEmit_placed cx rest _ r hr
+    have ca : CrossDisj cx.enc.word a := by
+      intro x hx f hf
+      rcases attrEmit_crossDisj cx pos v a ha with h0 | h0
+      · rw [h0] at hx; simp at hx
+      · rw [h0] at hf; simp at hf
+    exact crossDisj_append _ a r pos _ _ ca (attrsEmit_crossDisj cx rest _ r hr) a1 a2 r1 r2
+
+mutual
+theorem emitTree_crossDisj (cx : Ctx) : ∀ (t : Tree) (pos : Nat) (em : Emit), emitTree cx pos t = .ok em →
+    CrossDisj cx.enc.word em
+  | .node id tag sib attrs ch, pos, em, h => by
+    rw [emitTree] at h
+    obtain ⟨code, _, h⟩ := bind_ok_inv h
+    obtain ⟨a, ha, h⟩ := bind_ok_inv h
+    obtain ⟨k, hk, h⟩ := bind_ok_inv h
+    obtain ⟨sibBs, _, h⟩ := bind_ok_inv h
+    simp only [Out.pure_eq, Out.ok.injEq] at h
+    subst h
+    obtain ⟨a1, a2⟩ := attrsEmit_placed cx attrs _ a ha
+    have ca := attrsEmit_crossDisj cx attrs _ a ha
+    -- the children (with their null terminator): same holes as the forest's emission
+    have hk' : CrossDisj cx.enc.word k ∧
+        ∃ hi, Placed ((pos + (Leb.encodeU code).length + if (sib && !ch.isEmpty) = true then cx.enc.word else 0) + a.bytes.length) hi
+            (holesU cx.enc.word k) ∧
+          Placed ((pos + (Leb.encodeU code).length + if (sib && !ch.isEmpty) = true then cx.enc.word else 0) + a.bytes.length) hi
+            (holesI k.ifix) := by
+      cases ch with
+      | nil =>
+        simp only [Out.pure_eq, Out.ok.injEq] at hk
+        subst hk
+        exact ⟨fun r hr => by simp at hr, _, by show _ ≤ _; exact Nat.le_refl _, by show _ ≤ _; exact Nat.le_refl _⟩
+      | cons t rest =>
+        simp only at hk
+        obtain ⟨k0, hk0, hk⟩ := bind_ok_inv hk
+        simp only [Out.pure_eq, Out.ok.injEq] at hk
+        subst hk
+        obtain ⟨f1, f2⟩ := emitForest_placed cx (.cons t rest) _ k0 hk0
+        have c0 := emitForest_crossDisj cx (.cons t rest) _ k0 hk0
+        have cc : CrossDisj cx.enc.word (k0 ++ Emit.ofBytes [0]) := by
+          intro r hr f hf
+          simp only [Emit.append_urefs, Emit.append_ifix, Emit.ofBytes, List.append_nil] at hr hf
+          exact c0 r hr f hf
+        have e1 : holesU cx.enc.word (k0 ++ Emit.ofBytes [0]) = holesU cx.enc.word k0 := by
+          simp [holesU, Emit.ofBytes]
+        have e2 : holesI (k0 ++ Emit.ofBytes [0]).ifix = holesI k0.ifix := by
+          simp [holesI, Emit.ofBytes]
+        exact ⟨cc, _, e1 ▸ f1, e2 ▸ f2⟩
+    obtain ⟨ck, hi, k1, k2⟩ := hk'
+    have c1 : CrossDisj cx.enc.word (a ++ k) := crossDisj_append _ a k _ _ hi ca ck a1 a2 k1 k2
+    intro r hr f hf
+    simp only [Emit.append_urefs, Emit.append_ifix, List.nil_append] at hr hf
+    exact c1 r (by simpa using hr) f (by simpa using hf)
+theorem emitForest_crossDisj (cx : Ctx) : ∀ (f : Forest) (pos : Nat) (em : Emit), emitForest cx pos f = .ok em →
+    CrossDisj cx.enc.word em
+  | .nil, pos, em, h => by
+    simp only [emitForest, Out.pure_eq, Out.ok.injEq] at h; subst h
+    intro r hr; simp at hr
+  | .cons t rest, pos, em, h => by
+    rw [emitForest] at h
+    obtain ⟨a, ha, h⟩ := bind_ok_inv h
+    obtain ⟨r, hr, h⟩ := bind_ok_inv h
+    simp only [Out.pure_eq, Out.ok.injEq] at h; subst h
+    obtain ⟨a1, a2⟩ := emitTree_placed cx t pos a ha
+    obtain ⟨r1, r2⟩ := emitForest_placed cx rest _ r hr
+    exact crossDisj_append _ a r pos _ _ (emitTree_crossDisj cx t pos a ha)
+      (emitForest_crossDisj cx rest _ r hr) a1 a2 r1 r2
+end
+
+/-- one unit: everything it queues lies behind what was there before -/
+theorem writeUnit_later (e : Endian) (so lso : List Nat) (s s' : Sec) (u : UnitIn) (o : Offs)
+    (h : writeUnit e so lso s u = .ok (s', o)) :
+    ∃ later, s'.ifix = s.ifix ++ later ∧ ∀ f ∈ later, s.info.length ≤ f.pos := by
+  obtain ⟨hdr, p1, em, lf, _, _, h3, _, _, _, h7, _⟩ := writeUnit_inv e so lso s s' u o h
+  obtain ⟨_, pl⟩ := emitTree_placed _ _ _ _ h3
+  refine ⟨em.ifix, h7, ?_⟩
+  intro f hf
+  have := Placed.within pl (f.pos, f.size) (List.mem_map.mpr ⟨f, hf, rfl⟩)
+  simp only at this
+  omega
+
+/-- later units only append: the bytes of earlier units stay, and every fix-up queued later
+lies behind them -/
+theorem writeUnits_frame (e : Endian) (so lso : List Nat) : ∀ (units : List UnitIn) (s s' : Sec)
+    (offs : List Offs), writeUnits e so lso s units = .ok (s', offs) →
+    s.info.length ≤ s'.info.length ∧ (∀ i, i < s.info.length → s'.info[i]? = s.info[i]?) ∧
+      ∃ later, s'.ifix = s.ifix ++ later ∧ ∀ f ∈ later, s.info.length ≤ f.pos
+  | [], s, s', offs, h => by
+    simp only [writeUnits, Out.ok.injEq, Prod.mk.injEq] at h
+    rw [← h.1]
+    exact ⟨Nat.le_refl _, fun _ _ => rfl, [], by simp, by simp⟩
+  | u :: rest, s, s', offs, h => by
+    rw [writeUnits] at h
+    obtain ⟨⟨s1, o⟩, h1, h⟩ := bind_ok_inv h
+    obtain ⟨⟨s2, os⟩, h2, h⟩ := bind_ok_inv h
+    simp only [Out.pure_eq, Out.ok.injEq, Prod.mk.injEq] at h
+    rw [← h.1]
+    obtain ⟨l1, hl1, hl1'⟩ := writeUnit_later e so lso s s1 u o h1
+    have fr1 := writeUnit_frame e so lso s s1 u o h1
+    obtain ⟨hdr, p1, em, lf, _, _, _, h4, h5, _, _, _⟩ := writeUnit_inv e so lso s s1 u o h1
+    have len1 : s.info.length ≤ s1.info.length := by
+      have := (patchUnitRefs_ok _ _ _ _ _ _ h5).1
+      rw [this]; simp only [List.length_append]; omega
+    obtain ⟨a1, a2, l2, hl2, hl2'⟩ := writeUnits_frame e so lso rest s1 s2 os h2
+    refine ⟨by omega, ?_, l1 ++ l2, by rw [hl2, hl1, List.append_assoc], ?_⟩
+    · intro i hi
+      rw [a2 i (by omega), fr1 i hi]
+    · intro f hf
+      simp only [List.mem_append] at hf
+      rcases hf with hf | hf
+      · exact hl1' f hf
+      · have := hl2' f hf; omega
+
+/-- **`UnitRef` values survive to the end of `Dwarf::write`.** Write unit `u` on top of `s0`, then
+any further units, then patch all queued cross-unit fix-ups: in the final `.debug_info` every
+`UnitRef` placeholder of `u` still holds the unit offset of the entry it names (as in
+`unit_refs_resolve'`), because no fix-up placeholder overlaps it and later units only append. -/
+theorem unit_refs_final (e : Endian) (so lso : List Nat) (s0 s1 s2 : Sec) (u : UnitIn) (o : Offs)
+    (post : List UnitIn) (offs2 allOffs : List Offs) (info : Bytes)
+    (hnd : (unitRoot u).ids.Nodup)
+    (hp0 : Placed 0 s0.info.length (holesI s0.ifix))
+    (h1 : writeUnit e so lso s0 u = .ok (s1, o))
+    (h2 : writeUnits e so lso s1 post = .ok (s2, offs2))
+    (h3 : applyFixups e allOffs s2.info s2.ifix = .ok info) :
+    ∃ (hdr : Bytes) (p1 : P1) (em : Emit),
+      calcTree u.enc (p1Init (s0.info.length + initLenSize u.enc.format + hdr.length) s0.info.length u.nEntries)
+        (unitRoot u) = .ok p1 ∧
+      emitTree (unitCtx e so lso u p1) (s0.info.length + initLenSize u.enc.format + hdr.length) (unitRoot u) = .ok em ∧
+      o = p1.offs ∧
+      ∀ r ∈ em.urefs, ∃ target, (r.2, target) ∈ em.starts ∧ p1.offs.map r.2 = some target ∧
+        ∀ i, i < u.enc.word → info[r.1 + i]? = (toBytes e u.enc.word (target - s0.info.length))[i]? := by
+  obtain ⟨hdr, p1, em, lf, _, c2, c3, c4, c5, _, c7, co⟩ := writeUnit_inv e so lso s0 s1 u o h1
+  have hl := writeInitialLength_length _ _ _ _ c4
+  have hpre : (s0.info ++ lf ++ hdr).length = s0.info.length + initLenSize u.enc.format + hdr.length := by
+    simp [hl]; omega
+  refine ⟨hdr, p1, em, c2, c3, co, ?_⟩
+  have c2' := c2; have c3' := c3
+  rw [← hpre] at c2' c3'
+  obtain ⟨res, _, _⟩ := unit_refs_resolve' (unitCtx e so lso u p1) (unitRoot u) s0.info.length u.nEntries p1 em
+    (s0.info ++ lf ++ hdr) s1.info hnd c2' rfl rfl c3' c5
+  obtain ⟨pu, pi⟩ := emitTree_placed _ _ _ _ c3
+  have cd := emitTree_crossDisj _ _ _ _ c3
+  obtain ⟨_, inb⟩ := patchUnitRefs_ok _ _ _ _ _ _ c5
+  have len1 : s1.info.length = (s0.info ++ lf ++ hdr ++ em.bytes).length := (patchUnitRefs_ok _ _ _ _ _ _ c5).1
+  obtain ⟨_, fr2, later, hlater, hlater'⟩ := writeUnits_frame e so lso post s1 s2 offs2 h2
+  intro r hr
+  obtain ⟨target, t1, t2, t3⟩ := res r hr
+  refine ⟨target, t1, t2, ?_⟩
+  intro i hi
+  have t3' : s1.info[r.1 + i]? = (toBytes e u.enc.word (target - s0.info.length))[i]? := t3 i hi
+  rw [← t3']
+  obtain ⟨_, _, _, _, hb⟩ := inb r hr
+  have hj : r.1 + i < s1.info.length := by
+    rw [len1]
+    have hw : (unitCtx e so lso u p1).enc.word = u.enc.word := rfl
+    omega
+  have hstart := Placed.within pu (r.1, u.enc.word) (List.mem_map.mpr ⟨r, hr, rfl⟩)
+  simp only at hstart
+  rw [applyFixups_frame e allOffs s2.ifix s2.info info h3 (r.1 + i) ?_, fr2 (r.1 + i) hj]
+  intro f hf
+  rw [hlater, c7] at hf
+  simp only [List.mem_append] at hf
+  rcases hf with (hf | hf) | hf
+  · have := Placed.within hp0 (f.pos, f.size) (List.mem_map.mpr ⟨f, hf, rfl⟩)
+    simp only at this
+    right; omega
+  · have := cd r hr f hf
+    have hw : (unitCtx e so lso u p1).enc.word = u.enc.word := rfl
+    rw [hw] at this
+    omega
+  · have := hlater' f hf
+    left; omega
+
+
+/-! ## the emitted bytes are the encoding the form's reader decodes -/
+
+theorem readCStr_roundtrip : ∀ (s rest : Bytes), (∀ b ∈ s, b ≠ 0) → readCStr (s ++ 0 :: rest) = .ok (s, rest)
+  | [], rest, _ => by simp [readCStr]
+  | b :: s, rest, h => by
+    have hb : b ≠ 0 := h b (List.mem_cons_self ..)
+    have ih := readCStr_roundtrip s rest (fun x hx => h x (List.mem_cons_of_mem _ hx))
+    simp [readCStr, hb, ih]
+
+set_option linter.unusedSimpArgs false in
+theorem block_roundtrip (b rest : Bytes) (hb : b.length < 2 ^ 64) (form : Nat) (e : Endian) (c : Enc)
+    (hf : form = DW_FORM_block ∨ form = DW_FORM_exprloc) :
+    readForm e c form (Leb.encodeU b.length ++ b ++ rest) = .ok (.bytes b, rest) := by
+  have h1 := Leb.unsigned_roundtrip b.length hb (b ++ rest)
+  have h2 : take b.length (b ++ rest) = .ok (b, rest) := by
+    rw [take_ok _ _ (by simp)]; simp
+  rcases hf with hf | hf <;> subst hf <;>
+    simp [readForm, DW_FORM_block, DW_FORM_exprloc, DW_FORM_addr, DW_FORM_data1, DW_FORM_flag, DW_FORM_data2,
+      DW_FORM_data4, DW_FORM_ref4, DW_FORM_ref_sup4, DW_FORM_data8, DW_FORM_ref8, DW_FORM_ref_sup8,
+      DW_FORM_ref_sig8, DW_FORM_data16, DW_FORM_sec_offset, DW_FORM_strp, DW_FORM_strp_sup, DW_FORM_line_strp,
+      DW_FORM_udata, DW_FORM_flag_present, List.append_assoc, h1, h2]
+
+theorem word_cases (c : Enc) : c.word = 4 ∨ c.word = 8 := by
+  unfold Enc.word Format.wordSize; cases c.format <;> simp
+
+theorem fixed_roundtrip' (e : Endian) (v size : Nat) (bs rest : Bytes) (hv : v < 2 ^ 64)
+    (h : writeUdata e v size = .ok bs) : readFixed e size (bs ++ rest) = .ok (v, rest) :=
+  (writeUdata_roundtrip e v size bs rest h hv).2
+
+theorem toBytes_roundtrip (e : Endian) (n v : Nat) (rest : Bytes) (hv : v < 2 ^ (8 * n)) :
+    readFixed e n (toBytes e n v ++ rest) = .ok (v, rest) :=
+  readFixed_toBytes e n v rest (by rw [pow256]; exact hv)
+
+
+theorem flag_roundtrip (e : Endian) (x : UInt8) (rest : Bytes) :
+    readFixed e 1 ([x] ++ rest) = .ok (x.toNat, rest) := by
+  cases e <;> simp [readFixed, take, fromBytes, leVal]
+
+/-- a word-sized offset written by `write_udata` is read back by a word-sized fixed read -/
+theorem word_roundtrip (cx : Ctx) (off : Nat) (em : Emit) (rest : Bytes) (hoff : off < 2 ^ 64)
+    (h : (do let b ← writeUdata cx.endian off cx.enc.word; pure (Emit.ofBytes b) : Out Emit) = .ok em) :
+    readFixed cx.endian cx.enc.word (em.bytes ++ rest) = .ok (off, rest) := by
+  obtain ⟨b, hb, h⟩ := bind_ok_inv h
+  simp only [Out.pure_eq, Out.ok.injEq] at h; subst h
+  exact fixed_roundtrip' _ _ _ b rest hoff hb
+
+set_option linter.unusedSimpArgs false in
+/-- **The bytes written for a value are the encoding the reader of its form decodes**, for the
+unsigned, fixed-size, block, string and flag kinds: reading `em.bytes ++ rest` with the primitive
+readers that `read::parse_attribute` uses for `attrForm v` yields the intended value and leaves
+exactly `rest`. -/
+theorem attr_bytes_decode' (cx : Ctx) (pos : Nat) (v : AttrVal) (em : Emit) (fv : FormVal) (rest : Bytes)
+    (h : attrEmit cx pos v = .ok em) (hr : v.InRange) (hd : decoded cx v = some fv)
+    (hso : ∀ o ∈ cx.strOffsets, o < 2 ^ 64) (hlo : ∀ o ∈ cx.lineStrOffsets, o < 2 ^ 64)
+    (hlp : ∀ o, cx.lineProgram = some o → o < 2 ^ 64) :
+    readForm cx.endian cx.enc (attrForm cx.enc v).1 (em.bytes ++ rest) = .ok (fv, rest) := by
+  have hw := word_cases cx.enc
+  cases v <;> simp only [attrEmit] at h <;> simp only [decoded, Option.some.injEq, reduceCtorEq] at hd <;>
+    simp only [AttrVal.InRange] at hr
+  case address x =>
+    obtain ⟨b, hb, h⟩ := bind_ok_inv h
+    simp only [Out.pure_eq, Out.ok.injEq] at h; subst h hd
+    have hfit := (writeUdata_ok_iff _ _ _ hr).mp ⟨b, hb⟩
+    have := fixed_roundtrip' _ _ _ b rest hr hb
+    simp [readForm, attrForm, DW_FORM_addr, readAddress, hfit.1, Emit.ofBytes, this]
+  case block b =>
+    simp only [Out.ok.injEq] at h; subst h hd
+    simpa [attrForm, Emit.ofBytes, List.append_assoc] using
+      block_roundtrip b rest hr DW_FORM_block cx.endian cx.enc (Or.inl rfl)
+  case string s0 =>
+    simp only [Out.ok.injEq] at h; subst h hd
+    have := readCStr_roundtrip s0 rest hr
+    simp [readForm, attrForm, DW_FORM_string, DW_FORM_block, DW_FORM_exprloc, DW_FORM_addr, DW_FORM_data1,
+      DW_FORM_flag, DW_FORM_data2, DW_FORM_data4, DW_FORM_ref4, DW_FORM_ref_sup4, DW_FORM_data8, DW_FORM_ref8,
+      DW_FORM_ref_sup8, DW_FORM_ref_sig8, DW_FORM_data16, DW_FORM_sec_offset, DW_FORM_strp, DW_FORM_strp_sup,
+      DW_FORM_line_strp, DW_FORM_udata, DW_FORM_flag_present, Emit.ofBytes, this]
+  case data1 x =>
+    simp only [Out.ok.injEq] at h; subst h hd
+    have := toBytes_roundtrip cx.endian 1 x rest (by simpa using hr)
+    simp [readForm, attrForm, DW_FORM_string, DW_FORM_block, DW_FORM_exprloc, DW_FORM_addr, DW_FORM_data1, DW_FORM_flag, DW_FORM_data2, DW_FORM_data4, DW_FORM_ref4, DW_FORM_ref_sup4, DW_FORM_data8, DW_FORM_ref8, DW_FORM_ref_sup8, DW_FORM_ref_sig8, DW_FORM_data16, DW_FORM_sec_offset, DW_FORM_strp, DW_FORM_strp_sup, DW_FORM_line_strp, DW_FORM_udata, DW_FORM_flag_present, Emit.ofBytes, this]
+  case data2 x =>
+    simp only [Out.ok.injEq] at h; subst h hd
+    have := toBytes_roundtrip cx.endian 2 x rest (by simpa using hr)
+    simp [readForm, attrForm, DW_FORM_string, DW_FORM_block, DW_FORM_exprloc, DW_FORM_addr, DW_FORM_data1, DW_FORM_flag, DW_FORM_data2, DW_FORM_data4, DW_FORM_ref4, DW_FORM_ref_sup4, DW_FORM_data8, DW_FORM_ref8, DW_FORM_ref_sup8, DW_FORM_ref_sig8, DW_FORM_data16, DW_FORM_sec_offset, DW_FORM_strp, DW_FORM_strp_sup, DW_FORM_line_strp, DW_FORM_udata, DW_FORM_flag_present, Emit.ofBytes, this]
+  case data4 x =>
+    simp only [Out.ok.injEq] at h; subst h hd
+    have := toBytes_roundtrip cx.endian 4 x rest (by simpa using hr)
+    simp [readForm, attrForm, DW_FORM_string, DW_FORM_block, DW_FORM_exprloc, DW_FORM_addr, DW_FORM_data1, DW_FORM_flag, DW_FORM_data2, DW_FORM_data4, DW_FORM_ref4, DW_FORM_ref_sup4, DW_FORM_data8, DW_FORM_ref8, DW_FORM_ref_sup8, DW_FORM_ref_sig8, DW_FORM_data16, DW_FORM_sec_offset, DW_FORM_strp, DW_FORM_strp_sup, DW_FORM_line_strp, DW_FORM_udata, DW_FORM_flag_present, Emit.ofBytes, this]
+  case data8 x =>
+    simp only [Out.ok.injEq] at h; subst h hd
+    have := toBytes_roundtrip cx.endian 8 x rest (by simpa using hr)
+    simp [readForm, attrForm, DW_FORM_string, DW_FORM_block, DW_FORM_exprloc, DW_FORM_addr, DW_FORM_data1, DW_FORM_flag, DW_FORM_data2, DW_FORM_data4, DW_FORM_ref4, DW_FORM_ref_sup4, DW_FORM_data8, DW_FORM_ref8, DW_FORM_ref_sup8, DW_FORM_ref_sig8, DW_FORM_data16, DW_FORM_sec_offset, DW_FORM_strp, DW_FORM_strp_sup, DW_FORM_line_strp, DW_FORM_udata, DW_FORM_flag_present, Emit.ofBytes, this]
+  case data16 x =>
+    simp only [Out.ok.injEq] at h; subst h hd
+    have := toBytes_roundtrip cx.endian 16 x rest (by simpa using hr)
+    simp [readForm, attrForm, DW_FORM_string, DW_FORM_block, DW_FORM_exprloc, DW_FORM_addr, DW_FORM_data1, DW_FORM_flag, DW_FORM_data2, DW_FORM_data4, DW_FORM_ref4, DW_FORM_ref_sup4, DW_FORM_data8, DW_FORM_ref8, DW_FORM_ref_sup8, DW_FORM_ref_sig8, DW_FORM_data16, DW_FORM_sec_offset, DW_FORM_strp, DW_FORM_strp_sup, DW_FORM_line_strp, DW_FORM_udata, DW_FORM_flag_present, Emit.ofBytes, this]
+  case debugTypesRef x =>
+    simp only [Out.ok.injEq] at h; subst h hd
+    have := toBytes_roundtrip cx.endian 8 x rest (by simpa using hr)
+    simp [readForm, attrForm, DW_FORM_string, DW_FORM_block, DW_FORM_exprloc, DW_FORM_addr, DW_FORM_data1, DW_FORM_flag, DW_FORM_data2, DW_FORM_data4, DW_FORM_ref4, DW_FORM_ref_sup4, DW_FORM_data8, DW_FORM_ref8, DW_FORM_ref_sup8, DW_FORM_ref_sig8, DW_FORM_data16, DW_FORM_sec_offset, DW_FORM_strp, DW_FORM_strp_sup, DW_FORM_line_strp, DW_FORM_udata, DW_FORM_flag_present, Emit.ofBytes, this]
+  case udata x =>
+    simp only [Out.ok.injEq] at h; subst h hd
+    have := Leb.unsigned_roundtrip x hr rest
+    simp [readForm, attrForm, DW_FORM_string, DW_FORM_block, DW_FORM_exprloc, DW_FORM_addr, DW_FORM_data1, DW_FORM_flag, DW_FORM_data2, DW_FORM_data4, DW_FORM_ref4, DW_FORM_ref_sup4, DW_FORM_data8, DW_FORM_ref8, DW_FORM_ref_sup8, DW_FORM_ref_sig8, DW_FORM_data16, DW_FORM_sec_offset, DW_FORM_strp, DW_FORM_strp_sup, DW_FORM_line_strp, DW_FORM_udata, DW_FORM_flag_present, Emit.ofBytes, this]
+  case constClass x =>
+    simp only [Out.ok.injEq] at h; subst h hd
+    have := Leb.unsigned_roundtrip x hr rest
+    simp [readForm, attrForm, DW_FORM_string, DW_FORM_block, DW_FORM_exprloc, DW_FORM_addr, DW_FORM_data1, DW_FORM_flag, DW_FORM_data2, DW_FORM_data4, DW_FORM_ref4, DW_FORM_ref_sup4, DW_FORM_data8, DW_FORM_ref8, DW_FORM_ref_sup8, DW_FORM_ref_sig8, DW_FORM_data16, DW_FORM_sec_offset, DW_FORM_strp, DW_FORM_strp_sup, DW_FORM_line_strp, DW_FORM_udata, DW_FORM_flag_present, Emit.ofBytes, this]
+  case fileIndex x =>
+    simp only [Out.ok.injEq] at h; subst h hd
+    have := Leb.unsigned_roundtrip (x.getD 0) hr rest
+    simp [readForm, attrForm, DW_FORM_string, DW_FORM_block, DW_FORM_exprloc, DW_FORM_addr, DW_FORM_data1, DW_FORM_flag, DW_FORM_data2, DW_FORM_data4, DW_FORM_ref4, DW_FORM_ref_sup4, DW_FORM_data8, DW_FORM_ref8, DW_FORM_ref_sup8, DW_FORM_ref_sig8, DW_FORM_data16, DW_FORM_sec_offset, DW_FORM_strp, DW_FORM_strp_sup, DW_FORM_line_strp, DW_FORM_udata, DW_FORM_flag_present, Emit.ofBytes, this]
+  case flag b =>
+    simp only [Out.ok.injEq] at h; subst h hd
+    have h0 := flag_roundtrip cx.endian 0 rest
+    have h1 := flag_roundtrip cx.endian 1 rest
+    simp only [List.cons_append, List.nil_append] at h0 h1
+    cases b <;> simp [readForm, attrForm, DW_FORM_string, DW_FORM_block, DW_FORM_exprloc, DW_FORM_addr, DW_FORM_data1, DW_FORM_flag, DW_FORM_data2, DW_FORM_data4, DW_FORM_ref4, DW_FORM_ref_sup4, DW_FORM_data8, DW_FORM_ref8, DW_FORM_ref_sup8, DW_FORM_ref_sig8, DW_FORM_data16, DW_FORM_sec_offset, DW_FORM_strp, DW_FORM_strp_sup, DW_FORM_line_strp, DW_FORM_udata, DW_FORM_flag_present, Emit.ofBytes, h0, h1]
+  case flagPresent =>
+    simp only [Out.ok.injEq] at h; subst h hd
+    by_cases hv : cx.enc.version ≥ 4
+    · simp [readForm, attrForm, DW_FORM_string, DW_FORM_block, DW_FORM_exprloc, DW_FORM_addr, DW_FORM_data1, DW_FORM_flag, DW_FORM_data2, DW_FORM_data4, DW_FORM_ref4, DW_FORM_ref_sup4, DW_FORM_data8, DW_FORM_ref8, DW_FORM_ref_sup8, DW_FORM_ref_sig8, DW_FORM_data16, DW_FORM_sec_offset, DW_FORM_strp, DW_FORM_strp_sup, DW_FORM_line_strp, DW_FORM_udata, DW_FORM_flag_present, Emit.ofBytes, hv]
+    · have h1 := flag_roundtrip cx.endian 1 rest
+      simp only [List.cons_append, List.nil_append] at h1
+      simp [readForm, attrForm, DW_FORM_string, DW_FORM_block, DW_FORM_exprloc, DW_FORM_addr, DW_FORM_data1, DW_FORM_flag, DW_FORM_data2, DW_FORM_data4, DW_FORM_ref4, DW_FORM_ref_sup4, DW_FORM_data8, DW_FORM_ref8, DW_FORM_ref_sup8, DW_FORM_ref_sig8, DW_FORM_data16, DW_FORM_sec_offset, DW_FORM_strp, DW_FORM_strp_sup, DW_FORM_line_strp, DW_FORM_udata, DW_FORM_flag_present, Emit.ofBytes, hv, h1]
+  case debugInfoRefSup off =>
+    subst hd
+    have := word_roundtrip cx off em rest hr h
+    cases hf : cx.enc.format <;> simp [Enc.word, Format.wordSize, hf] at this <;>
+      simp [readForm, attrForm, DW_FORM_string, DW_FORM_block, DW_FORM_exprloc, DW_FORM_addr, DW_FORM_data1, DW_FORM_flag, DW_FORM_data2, DW_FORM_data4, DW_FORM_ref4, DW_FORM_ref_sup4, DW_FORM_data8, DW_FORM_ref8, DW_FORM_ref_sup8, DW_FORM_ref_sig8, DW_FORM_data16, DW_FORM_sec_offset, DW_FORM_strp, DW_FORM_strp_sup, DW_FORM_line_strp, DW_FORM_udata, DW_FORM_flag_present, hf, this]
+  case debugStrRefSup off =>
+    subst hd
+    have := word_roundtrip cx off em rest hr h
+    simp [readForm, attrForm, DW_FORM_string, DW_FORM_block, DW_FORM_exprloc, DW_FORM_addr, DW_FORM_data1, DW_FORM_flag, DW_FORM_data2, DW_FORM_data4, DW_FORM_ref4, DW_FORM_ref_sup4, DW_FORM_data8, DW_FORM_ref8, DW_FORM_ref_sup8, DW_FORM_ref_sig8, DW_FORM_data16, DW_FORM_sec_offset, DW_FORM_strp, DW_FORM_strp_sup, DW_FORM_line_strp, DW_FORM_udata, DW_FORM_flag_present, this]
+  case locationListRef off | debugMacinfoRef off | debugMacroRef off | rangeListRef off =>
+    subst hd
+    have := word_roundtrip cx off em rest hr h
+    by_cases hv : cx.enc.version = 2 ∨ cx.enc.version = 3
+    · cases hf : cx.enc.format <;> simp [Enc.word, Format.wordSize, hf] at this <;>
+        simp [readForm, attrForm, DW_FORM_string, DW_FORM_block, DW_FORM_exprloc, DW_FORM_addr, DW_FORM_data1, DW_FORM_flag, DW_FORM_data2, DW_FORM_data4, DW_FORM_ref4, DW_FORM_ref_sup4, DW_FORM_data8, DW_FORM_ref8, DW_FORM_ref_sup8, DW_FORM_ref_sig8, DW_FORM_data16, DW_FORM_sec_offset, DW_FORM_strp, DW_FORM_strp_sup, DW_FORM_line_strp, DW_FORM_udata, DW_FORM_flag_present, hf, hv, this]
+    · simp [readForm, attrForm, DW_FORM_string, DW_FORM_block, DW_FORM_exprloc, DW_FORM_addr, DW_FORM_data1, DW_FORM_flag, DW_FORM_data2, DW_FORM_data4, DW_FORM_ref4, DW_FORM_ref_sup4, DW_FORM_data8, DW_FORM_ref8, DW_FORM_ref_sup8, DW_FORM_ref_sig8, DW_FORM_data16, DW_FORM_sec_offset, DW_FORM_strp, DW_FORM_strp_sup, DW_FORM_line_strp, DW_FORM_udata, DW_FORM_flag_present, hv, this]
+  case lineProgramRef =>
+    cases hl : cx.lineProgram with
+    | none => simp [hl] at h
+    | some off =>
+      simp only [hl, Option.map_some, Option.some.injEq] at h hd
+      subst hd
+      have := word_roundtrip cx off em rest (hlp off hl) h
+      by_cases hv : cx.enc.version = 2 ∨ cx.enc.version = 3
+      · cases hf : cx.enc.format <;> simp [Enc.word, Format.wordSize, hf] at this <;>
+          simp [readForm, attrForm, DW_FORM_string, DW_FORM_block, DW_FORM_exprloc, DW_FORM_addr, DW_FORM_data1, DW_FORM_flag, DW_FORM_data2, DW_FORM_data4, DW_FORM_ref4, DW_FORM_ref_sup4, DW_FORM_data8, DW_FORM_ref8, DW_FORM_ref_sup8, DW_FORM_ref_sig8, DW_FORM_data16, DW_FORM_sec_offset, DW_FORM_strp, DW_FORM_strp_sup, DW_FORM_line_strp, DW_FORM_udata, DW_FORM_flag_present, hf, hv, this]
+      · simp [readForm, attrForm, DW_FORM_string, DW_FORM_block, DW_FORM_exprloc, DW_FORM_addr, DW_FORM_data1, DW_FORM_flag, DW_FORM_data2, DW_FORM_data4, DW_FORM_ref4, DW_FORM_ref_sup4, DW_FORM_data8, DW_FORM_ref8, DW_FORM_ref_sup8, DW_FORM_ref_sig8, DW_FORM_data16, DW_FORM_sec_offset, DW_FORM_strp, DW_FORM_strp_sup, DW_FORM_line_strp, DW_FORM_udata, DW_FORM_flag_present, hv, this]
+  case stringRef idx =>
+    obtain ⟨off, ho, h⟩ := bind_ok_inv h
+    unfold tableOffset at ho
+    cases hg : cx.strOffsets[idx]? with
+    | none => simp [hg] at ho
+    | some o =>
+      simp only [hg, Out.ok.injEq, Option.map_some, Option.some.injEq] at ho hd
+      subst ho hd
+      have := word_roundtrip cx o em rest (hso o (List.mem_of_getElem? hg)) h
+      simp [readForm, attrForm, DW_FORM_string, DW_FORM_block, DW_FORM_exprloc, DW_FORM_addr, DW_FORM_data1, DW_FORM_flag, DW_FORM_data2, DW_FORM_data4, DW_FORM_ref4, DW_FORM_ref_sup4, DW_FORM_data8, DW_FORM_ref8, DW_FORM_ref_sup8, DW_FORM_ref_sig8, DW_FORM_data16, DW_FORM_sec_offset, DW_FORM_strp, DW_FORM_strp_sup, DW_FORM_line_strp, DW_FORM_udata, DW_FORM_flag_present, this]
+  case lineStringRef idx =>
+    obtain ⟨off, ho, h⟩ := bind_ok_inv h
+    unfold tableOffset at ho
+    cases hg : cx.lineStrOffsets[idx]? with
+    | none => simp [hg] at ho
+    | some o =>
+      simp only [hg, Out.ok.injEq, Option.map_some, Option.some.injEq] at ho hd
+      subst ho hd
+      have := word_roundtrip cx o em rest (hlo o (List.mem_of_getElem? hg)) h
+      simp [readForm, attrForm, DW_FORM_string, DW_FORM_block, DW_FORM_exprloc, DW_FORM_addr, DW_FORM_data1, DW_FORM_flag, DW_FORM_data2, DW_FORM_data4, DW_FORM_ref4, DW_FORM_ref_sup4, DW_FORM_data8, DW_FORM_ref8, DW_FORM_ref_sup8, DW_FORM_ref_sig8, DW_FORM_data16, DW_FORM_sec_offset, DW_FORM_strp, DW_FORM_strp_sup, DW_FORM_line_strp, DW_FORM_udata, DW_FORM_flag_present, this]
 
 
 end Gimli.WUnit
